@@ -312,7 +312,7 @@ def _wrap_fn(
                 else:
                     raise InvalidReturnError(ret_result)
             else:
-                return func(*ok_args, **kwargs)
+                return func(*ok_args, **ok_kw_args)
 
         return cast(_DecoratedFunc, inner)
 
